@@ -352,6 +352,10 @@ def plain_dict_input_is_serialised_like_options(rings: int, mesh: float, b: bool
     assert d["numInternalRings"] == rings and eq(d["meshSubdivisionsPerCm"], mesh) and d["criticalBuckling"] == b
     assert d["mergeIntoFuel"] == [] and d["fluxFileLocation"] == "" and d["geometry"] == "0D"
     assert src["AA"]["xsID"] == "AA" and src["AA"]["driverID"] is None and len(src) == 3, "the input is not modified"
+    src["AB"] = {"driverID": None, "xsID": "AB"}
+    back = xs.xsSettingsValidator(src)
+    assert list(back.keys()) == ["AA"], "an entry none of whose fields is set is no entry (it is neither read as options nor an error)"
+    assert back["AA"].numInternalRings == rings and back["AA"].fluxFileLocation == "" and back["AA"].driverID is None
     case = choose(case, 0, 5)
     bad = (None, 3, "AA", [("AA", {})], {"AA": 3}, {"AA": [1]})[case]
     try:
